@@ -225,7 +225,8 @@ PROPS["C12"] = {
     "technique": "model-based runtime monitor: random operation sequences on the real UDPMuxDefault over a fake shared socket, compared after every operation with a reference routing table (per-connection FIFO, address bindings); concurrent histories under the race detector with a schedule-independent oracle",
     "level_text": "Sequences of 20-80 operations over 2-4 ufrags (incl. the empty one) and 8 sources (IPv4, IPv4-mapped IPv6, IPv6, link-local with zone): GetConn (both families on an unspecified-address mux, wrong address), WriteTo, inbound "
                   "(non-STUN, STUN with five USERNAME forms, without USERNAME, undecodable), RemoveConnByUfrag, handle Close, mux Close; both the net.PacketConn and the netip.AddrPort I/O flavours of the handle. "
-                  "Concurrent: readers, writers, feeder, removers and closers with seeded pauses at hook H2.",
+                  "Concurrent: readers, writers, feeder, removers and closers with seeded pauses at hook H2. One history in three goes through UniversalUDPMuxDefault (inbound XOR-MAPPED-ADDRESS responses included); "
+                  "separate histories drive MultiUDPMuxDefault over 2-3 muxes (per-address GetConn, probes per socket, RemoveConnByUfrag on all, Close of all).",
     "level_note": "UniversalUDPMuxDefault / MultiUDPMuxDefault wrap the same UDPMuxDefault and are not driven separately. In the sequential mode the close-watcher goroutine is awaited before the next operation.",
     "rule": "case = one operation sequence; distinct_nontrivial counts (mux flavour, #ufrags, length bucket, #connections) classes and concurrent read-distribution classes",
     "assumptions": ["'after it is removed' covers RemoveConnByUfrag while handles are still open"],
